@@ -22,7 +22,7 @@ def main():
              "|---|---|---|---|---|---|\n" + "\n".join(rows))
     p = os.path.join(ROOT, "DESIGN.md")
     s = open(p).read()
-    s = re.sub(r"<!-- SEEDED-BEGIN -->.*<!-- SEEDED-END -->", "<!-- SEEDED-BEGIN -->\n" + table + "\n<!-- SEEDED-END -->", s, flags=re.S)
+    s = re.sub(r"<!-- SEEDED-BEGIN -->.*<!-- SEEDED-END -->", lambda _m: "<!-- SEEDED-BEGIN -->\n" + table + "\n<!-- SEEDED-END -->", s, flags=re.S)
     open(p, "w").write(s)
     print(len(rows), "rows")
 
